@@ -241,13 +241,17 @@ def r09c(chk, rid='R09.c'):
     inserted = []
     logged = []
     results = []
+    problems = []
+
+    state = {'wellformed': True}
+    consumed = []
 
     def mkrule(kind):
         class R(Obj):
             margins = ('@top-left', '@bottom-center')
 
             def __init__(self, *a, **k):
-                Obj.__init__(self, kind=kind, wellformed=True, prefix='p', namespaceURI='u', NAMESPACE_RULE=10, cssText=None)
+                Obj.__init__(self, kind=kind, wellformed=state['wellformed'] or kind == 'CSSComment', prefix='p', namespaceURI='u', NAMESPACE_RULE=10, cssText=None)
         return R
 
     css = Record(**{n: mkrule(n) for n in ('CSSComment', 'CSSCharsetRule', 'CSSImportRule', 'CSSNamespaceRule', 'CSSVariablesRule', 'CSSFontFaceRule', 'CSSMediaRule', 'CSSPageRule', 'MarginRule', 'CSSUnknownRule', 'CSSStyleRule')},
@@ -269,12 +273,24 @@ def r09c(chk, rid='R09.c'):
                 continue
             for level in (0, 1, 2, 3):
                 del inserted[:]
-                new = cb(level, seq, (ttype, val, 1, 1), tokenizer)
+                del consumed[:]
+                tok = (ttype, val, 1, 1)
+                new = cb(level, seq, tok, tokenizer)
                 results.append((ttype, val, level, new, [r.kind for r in inserted]))
+                # consume always: one slice of the statement, from this token, with the default end
+                if ttype not in ('S', 'CDO', 'CDC', 'COMMENT') and consumed != [((tokenizer, tok), {})]:
+                    problems.append(f'{ttype} {val} at level {level}: the statement is consumed by {len(consumed)} slice(s) {[(a[1:], k) for a, k in consumed][:2]} instead of one _tokensupto2(tokenizer, token)')
+                # insert only if well-formed
+                state['wellformed'] = False
+                del inserted[:]
+                cb(level, seq, tok, tokenizer)
+                state['wellformed'] = True
+                if [r.kind for r in inserted if r.kind != 'CSSComment']:
+                    problems.append(f'{ttype} {val} at level {level}: a rule that failed to parse is inserted')
         return True, 3
 
     me = Obj(_checkReadonly=lambda: None, _splitNamespacesOff=lambda t: (t, {}), _tokenize2=lambda t: 'TOKENIZER', _cssRules=[], _namespaces={}, namespaces={},
-             _tokenvalue=lambda tok, normalize=False: tok[1].lower() if normalize else tok[1], _tokensupto2=lambda *a, **k: ['tokens'],
+             _tokenvalue=lambda tok, normalize=False: tok[1].lower() if normalize else tok[1], _tokensupto2=lambda *a, **k: (consumed.append((a, k)), ['tokens'])[1],
              insertRule=lambda r, *a, **k: inserted.append(r), _updateVariables=lambda: None, _cleanNamespaces=lambda: None,
              _log=Record(error=lambda *a, **k: logged.append('error'), warn=lambda *a, **k: None, info=lambda *a, **k: None), _variables=None)
     intr = {'cssutils': Record(css=css), 'xml': Record(dom=Record(HierarchyRequestErr='HierarchyRequestErr')), 'self._parse': driver, 'CSSVariablesDeclaration': lambda *a, **k: 'vars',
@@ -309,6 +325,7 @@ def r09c(chk, rid='R09.c'):
             why = f'level becomes {new!r}, inserted {kinds}; prescribed: level {want} - a comment, white space, unknown or misplaced at-rule must not move the sheet into another section'
         if not ok or (level == 0 and val == ttype):
             chk.ob(rid, SHEET, 'CSSStyleSheet._setCssText', label + ': ' + ('accepted' if ttype in SPEC and level <= SPEC[ttype][0] else 'rejected' if ttype in SPEC else 'level-neutral'), ok, why)
+    chk.ob(rid, SHEET, 'CSSStyleSheet._setCssText', 'every statement callback consumes its statement with one default slice starting at its token, and inserts only a rule that parsed', not problems, ' | '.join(problems[:3]))
     if n < 50:
         raise AnalysisError(f'only {n} callback/level cases evaluated')
     chk.extra['parse_level_cases'] = n
